@@ -11,7 +11,8 @@ checks, na = [], []
 for p in props:
     pid = p['id']
     c = glob.glob(os.path.join(HERE, 'checks', pid.lower() + '_*.py'))
-    if not c:
+    ready = open(os.path.join(HERE, 'tools', 'ready.txt')).read().split()
+    if not c or pid not in ready:
         na.append({'property_id': pid, 'reason': 'check not built yet (runtime monitoring applies; see DESIGN.md section 3)'})
         continue
     mod = importlib.import_module('checks.' + os.path.basename(c[0])[:-3])
